@@ -1,10 +1,11 @@
 From Coq Require Extraction.
 From Coq Require Import ExtrOcamlBasic.
-From AIT Require Import Base.Vio Base.Qx Base.Mdp C12.Model C12.Spec C12.Vertices.
+From AIT Require Import Base.Vio Base.Qx Base.Mdp C12.Model C12.Spec C12.Vertices C12.ModelUseful.
 Extraction "model.ml" vio_kit dot best maxl dominates dominates0 veccmp
   extractDominated extractDominatedIncremental
   findBestAtPointV findBestAtSimplexCornerV extractBestAtPointV extractBestAtSimplexCornersV prunerV
   cornerVals basicV st_scan sawtoothInterpolation sawtoothInterpolation_orig
   compatiblePoints nonZeroStates lpi_rows lpi_rhs lpi_coef LPInterpolation
   fv_subsets fv_matrix fv_rhs fv_clean fv_accept fv_tagged findVerticesNaive findVerticesNaiveRange
+  extractBestUsefulPointsV supV useful_coverb findBestDeltaDominatedV ddomb
   env weights_ok_tolb value_le_weightedb weighted_value env_geb sublistb recon corners veqb.
